@@ -66,6 +66,23 @@ func init() {
 			}
 			sb.WriteString("\ndef " + strings.ToLower(fn[:1]) + fn[1:] + "Shape : List String := " + LeanStrList(c18StmtShape(fd.Body.List)) + "\n")
 		}
+		// dropping a database removes exactly its own assignment key (storage_cluster.go)
+		_, sc, err := ParseFile(repo, "coordinator/master/storage_cluster.go")
+		if err != nil {
+			return "", err
+		}
+		dd := FindFunc(sc, "storageCluster", "DropDatabaseAssignment")
+		if dd == nil {
+			return "", fmt.Errorf("storageCluster.DropDatabaseAssignment not found")
+		}
+		sb.WriteString("\ndef dropDatabaseAssignmentShape : List String := " + LeanStrList(c18StmtShape(dd.Body.List)) + "\n")
+		var ddCalls []string
+		for _, cname := range CallSeq(dd) {
+			if !strings.HasPrefix(cname, "logger.") {
+				ddCalls = append(ddCalls, cname)
+			}
+		}
+		sb.WriteString("\ndef dropDatabaseAssignmentCalls : List String := " + LeanStrList(ddCalls) + "\n")
 		capv := int64(-1)
 		ast.Inspect(FindFunc(sm, "", "NewStateManager"), func(n ast.Node) bool {
 			if ce, ok := n.(*ast.CallExpr); ok {
